@@ -270,6 +270,20 @@ func (idx *IVFIndex) Add(vector VectorNode) error {
 		return err
 	}
 
+	// Re-adding a soft-deleted ID replaces the stale entry instead of hiding the new one
+	if idx.deletedNodes.Contains(vector.ID()) {
+		for listIdx := range idx.lists {
+			kept := make([]VectorNode, 0, len(idx.lists[listIdx]))
+			for _, v := range idx.lists[listIdx] {
+				if v.ID() != vector.ID() {
+					kept = append(kept, v)
+				}
+			}
+			idx.lists[listIdx] = kept
+		}
+		idx.deletedNodes.Remove(vector.ID())
+	}
+
 	// Find the nearest centroid (call utility directly since we already hold write lock)
 	nearestCentroidIdx := FindNearestCentroidIndex(vector.Vector(), idx.centroids, idx.distance)
 
